@@ -4,6 +4,7 @@ package main
 // decides the property and writes the evidence file.
 
 import (
+	"regexp"
 	"os/exec"
 	"crypto/sha256"
 	"encoding/json"
@@ -598,7 +599,12 @@ func checkProperty(cfg *RunCfg, prog *Program, id string, start time.Time) (int,
 	var missing []string
 	if haveBase {
 		for name := range base.Properties[id] {
-			if !seen[name] && !strings.HasPrefix(name, "sweep.") {
+			// only obligations that stem from an explicit contract clause (postcondition, in-body assertion, loop
+			// invariant, lemma, interface refinement) are tracked: their disappearance means a clause was dropped.
+			// Safety, frame, call-precondition, propagation and commutation obligations are generated from the code
+			// itself and numbered in source order -- any edit renumbers them; what matters for those is that every
+			// obligation of the CURRENT code is discharged.
+			if !seen[name] && !strings.HasPrefix(name, "sweep.") && contractDerived(name) {
 				missing = append(missing, name)
 			}
 		}
@@ -921,3 +927,7 @@ func runConformance(verifDir string) map[string]interface{} {
 		"output":  firstLines(text, 12),
 	}
 }
+
+var contractDerivedRe = regexp.MustCompile(`#(post#|at#|loop#[0-9]+#inv#|lemma#|iface#.*#post#)`)
+
+func contractDerived(name string) bool { return contractDerivedRe.MatchString(name) }
